@@ -416,13 +416,14 @@ def rnd_version(rng, name):
     lo = name.lower()
     if lo == "kitty":
         return rng.choice(["0.20.0", "0.19.3", "0.19.99", "0.20", "0.21.2", "0.30.1", "1.0.0", "0.20.0.1", "0.9.30",
-                           "0", "1", "0.20.x", "0.35.2-dev", "%d.%d.%d" % (rng.randrange(2), rng.randrange(40), rng.randrange(5))])
+                           "0", "1", "0.20.x", "0.35.2-dev", "0.21.2-Nightly", "0.35.2-DEV", "0.26.5-RC1", "%d.%d.%d" % (rng.randrange(2), rng.randrange(40), rng.randrange(5))])
     if lo == "konsole":
-        return rng.choice(["22.04.0", "22.4.0", "22.03.9", "21.12.3", "22.4", "23.08.1", "22.04.0-beta", "22",
+        return rng.choice(["22.04.0", "22.4.0", "22.03.9", "21.12.3", "22.4", "23.08.1", "22.04.0-beta", "22.04.0-Beta", "23.08.1-RC2", "22",
                            "%d.%02d.%d" % (rng.randrange(20, 25), rng.randrange(1, 13), rng.randrange(4))])
     if lo == "wezterm":
-        return rng.choice(["20230712-072601-f4abf8fd", "20220101"])
-    return rng.choice(["3.4.19", "370", "1.13.1", "3.3a", "6003", "0.3.1.200", "%d.%d" % (rng.randrange(9), rng.randrange(30))])
+        return rng.choice(["20230712-072601-f4abf8fd", "20230712-072601-F4ABF8FD", "20240203-110809-5046FC22", "20220101"])
+    # upper-case letters are frequent: the version is reported exactly as replied (only the NAME is lower-cased)
+    return rng.choice(["3.4.19", "370", "1.13.1", "3.3a", "6003", "0.3.1.200", "388-RC1", "3.5.0beta12-DEV", "3.3A", "1.16.2-Nightly", "V2", "%d.%d" % (rng.randrange(9), rng.randrange(30))])
 
 
 # free text of real-world version replies: valid UTF-8 beyond ASCII (never digits or white space of another script -
